@@ -4011,6 +4011,10 @@ EmitX86RFromM:
   // Emit mandatory instruction prefix.
   writer.emit_pp(opcode.v);
 
+  // Emit override prefixes (legacy prefixes must precede REX).
+  writer.emit_segment_override(rm_rel->as<Mem>().segment_id());
+  writer.emit_address_override((rm_info & _address_override_mask()) != 0);
+
   // Emit REX prefix (64-bit only).
   {
     uint32_t rex = opcode.extract_rex(options) |
@@ -4025,10 +4029,6 @@ EmitX86RFromM:
     op_reg &= 0x07;
     rb_reg &= 0x07;
   }
-
-  // Emit override prefixes.
-  writer.emit_segment_override(rm_rel->as<Mem>().segment_id());
-  writer.emit_address_override((rm_info & _address_override_mask()) != 0);
 
   // Emit instruction opcodes.
   writer.emit_mm_and_opcode(opcode.v);
